@@ -150,10 +150,25 @@ def check_frames(case):
     derived_any = False
     pending_reject = False
 
-    def verify_all(except_idx, what):
+    def verify_all(except_idx, what, grown_labels=()):
         for q, lv in enumerate(live):
             if q == except_idx:
                 continue
+            # what grew elsewhere is no label of any other container: neither listed (snapshot below) nor found by membership
+            if not getattr(lv, 'alias', False):
+                axes = [lv.obj] if isinstance(lv.obj, (sf.Index, sf.IndexHierarchy)) else ([lv.obj.index, lv.obj.columns] if isinstance(lv.obj, sf.Frame) else [lv.obj.index])
+                for ax in axes:
+                    held = [canon(x) for x in ax]
+                    for lab in grown_labels:
+                        if any(eq(canon(lab), h) for h in held):
+                            continue
+                        key = tuple(lab) if isinstance(lab, (tuple, list)) else lab
+                        if isinstance(key, tuple) and ax.depth != len(key):
+                            continue
+                        member = lib(lambda: key in ax)
+                        if member is True or member is np.True_:
+                            raise Failure('leak', '%s: label %r added elsewhere is reported as a member of live container #%d (%s), whose labels are %s' % (
+                                what, lab, q, type(lv.obj).__name__, short(held, 200)))
             s2 = lib(obs.snap, lv.obj)
             if isinstance(s2, Raised):
                 raise Failure('unreadable', '%s: live container #%d became unreadable: %r' % (what, q, s2.exc), s2.where)
@@ -418,7 +433,7 @@ def check_frames(case):
                 classes.append('derive-before-observe:' + route)
             if derived_any and new_labels:
                 grown_after_derive = True
-        verify_all(ti, what)
+        verify_all(ti, what, new_labels or ())
     if deferred:
         raise deferred[0]
     return {'nt': grown_after_derive or rejected_then_read, 'cls': classes}
